@@ -396,7 +396,8 @@ Definition fake_handler (s : sim) (req : list (list Z)) : sim * option cres :=
     | None => bad end
   else if verb_is req v_FAKE_TRXC_DELAY 1 then
     match arg req 1 with
-    | Some a => (sim_set s (s_muted s) (s_fake_rssi s) (s_txp s) (s_att s) (s_toa s) (s_toa_thr s) (s_rssi s) (s_rssi_thr s) (s_ci s) (s_ci_thr s) (s_ta s) (s_drop s) (s_period s) a, None)
+    | Some a => if trxc_delay_ms_max <? a then (s, Some (CStatus (-1) []))     (* more than time.sleep() takes: refused *)
+                else (sim_set s (s_muted s) (s_fake_rssi s) (s_txp s) (s_att s) (s_toa s) (s_toa_thr s) (s_rssi s) (s_rssi_thr s) (s_ci s) (s_ci_thr s) (s_ta s) (s_drop s) (s_period s) a, None)
     | None => bad end
   else (s, None).
 
@@ -484,6 +485,7 @@ Definition is_nul (c : Z) : bool := c =? 0.
 (* CTRLInterface.handle_rx on one datagram (ASCII octets): new world, the reply datagram if any (sent to the source address), draws.
    ROther: the datagram is not ASCII (outside the modelled domain): ignored without reply after the repair. *)
 Inductive rx_out := RReply (octets : list Z) | RNone | RCrashed.
+Definition sleep_overflows (ms : Z) : bool := (0 <? ms) && (9223372036854775807 <? ms * 1000000).
 Definition handle_rx (w : world) (i : nat) (data : list Z) (draws : list Z) : world * rx_out * list Z :=
   let data := firstn (Z.to_nat ctrl_recv_size) data in
   if existsb (fun c => (c <? 0) || (127 <? c)) data then (w, RNone, draws)
@@ -492,8 +494,16 @@ Definition handle_rx (w : world) (i : nat) (data : list Z) (draws : list Z) : wo
     let req := split_sp (strip is_nul (strip is_ws (skipn 4 data))) [] in
     let '(w', r, draws') := parse_cmd w i req draws in
     let reply rc extra := s_RSP ++ join_sp (hd [] req :: py_str rc :: tl req ++ extra) ++ [0] in
+    (* CTRLInterface.send_response: 'if self.rsp_delay_ms > 0: time.sleep(self.rsp_delay_ms / 1000.0)' with the delay as it is AFTER the
+       command; time.sleep raises OverflowError for more than 2^63-1 ns (the escaping exception is the crash).  The division by 1000.0 is
+       modelled exactly: the float error (about 1 us at 9.2e9 s) is far below the 775807 ns between the last good and the first bad ms value *)
+    let send (b : list Z) :=
+      match nth_error (w_trx w') i with
+      | Some t' => if sleep_overflows (s_delay (x_sim t')) then RCrashed else RReply b
+      | None => RReply b
+      end in
     match r with
-    | CStatus rc extra => (w', RReply (reply rc extra), draws')
-    | CBadInt => (w', RReply (reply (-1) []), draws')
+    | CStatus rc extra => (w', send (reply rc extra), draws')
+    | CBadInt => (w', send (reply (-1) []), draws')
     | CCrash => (w', RCrashed, draws')
     end.
